@@ -62,6 +62,7 @@ RustSupported(d) ==
 (* Python: no element-size fields (python-generated-code-guide, run_python_generator_tests) *)
 PySupported(d) ==
   /\ CommonSupported(d)
+  /\ \A i \in 1..Len(d.decls) : d.decls[i].kind # "custom"    \* needs a user-supplied module; not exercised
   /\ AllFieldsSat(d, LAMBDA decl, j, f : f.kind # "elementsize")
 
 (* C++: no custom fields, no element size *)
